@@ -174,14 +174,19 @@ type rfThread struct {
 
 func (t *rfThread) inCritical() bool { return t.st == tMid || t.st == tPostMid || t.st == tCapWait }
 
+type rfFetchCtl struct{ fail bool }
+
 type rfFetch struct {
 	id       int
+	gid      uint64
 	evs      []int
 	rel      chan struct{}
-	finished bool
+	ctl      *rfFetchCtl
+	finished bool // completed by the schedule (fin / fail)
+	failed   bool
+	added    bool // its goroutine reached buffer.Add (hook rf.buffer.add)
 	seq      int64
-	drained  bool
-	left     int
+	drained  bool // its goroutine finished Drain and all its sends (hook rf.drained)
 }
 
 type rfEvent struct {
@@ -191,6 +196,7 @@ type rfEvent struct {
 	seq   int64
 	evs   []int
 	rel   chan struct{}
+	ctl   *rfFetchCtl
 }
 
 type rfSim struct {
@@ -199,18 +205,31 @@ type rfSim struct {
 	tm       *vTimer
 	capacity int
 	events   chan rfEvent
+	errCh    chan error
 	freeRun  atomic.Bool
 	pGid     atomic.Uint64
 	p, t     rfThread
 	fetches  []*rfFetch
-	byItem   map[int]*rfFetch
-	reserved int
 	outs     []int
 	hung     bool
-	finning  *rfFetch
+	errs     int
+	consumed int // values the harness (the consumer) has received from Output
+	// expectation of what the fetch goroutines will send, from the hook events (used only to know what to wait for):
+	addedLen  map[int64]int // sequence number -> number of results handed to buffer.Add
+	nextDrain int64         // next sequence number the drain will dequeue
+	drainLens []int         // result counts of the batches the drain can dequeue, in order
 }
 
-const rfLong = 10 * time.Second
+var c20Hangs atomic.Int32
+
+// rfLong bounds the wait for something that must happen; after two hangs in one run the remaining cases wait briefly
+func rfLong() time.Duration {
+	if c20Hangs.Load() >= 2 {
+		return 300 * time.Millisecond
+	}
+	return 10 * time.Second
+}
+
 const rfGrace = 4 * time.Millisecond
 
 func (s *rfSim) post(ev rfEvent, block bool) {
@@ -242,13 +261,19 @@ func (s *rfSim) hook(label string, payload []any) {
 		s.post(rfEvent{label: label, gid: curGid(), n: n}, true)
 	case "rf.buffer.add", "rf.drained":
 		q, _ := payload[0].(uint64)
-		s.post(rfEvent{label: label, seq: int64(q)}, false)
+		s.post(rfEvent{label: label, gid: curGid(), seq: int64(q)}, false)
 	}
 }
 
+var errC20Fetch = fmt.Errorf("scripted fetch error")
+
 func (s *rfSim) fetch(ctx context.Context, events []int) ([]int, error) {
 	evs := append([]int(nil), events...)
-	s.post(rfEvent{label: "fetch.start", evs: evs}, true)
+	ctl := &rfFetchCtl{}
+	s.post(rfEvent{label: "fetch.start", gid: curGid(), evs: evs, ctl: ctl}, true)
+	if ctl.fail {
+		return nil, errC20Fetch
+	}
 	return evs, nil
 }
 
@@ -257,6 +282,15 @@ func (s *rfSim) thr(gid uint64) *rfThread {
 		return &s.p
 	}
 	return &s.t
+}
+
+func (s *rfSim) fetchOf(gid uint64) *rfFetch {
+	for _, f := range s.fetches {
+		if f.gid == gid {
+			return f
+		}
+	}
+	return nil
 }
 
 func (s *rfSim) handle(ev rfEvent) {
@@ -268,12 +302,8 @@ func (s *rfSim) handle(ev rfEvent) {
 		th := s.thr(ev.gid)
 		th.st, th.n, th.rel = tMid, ev.n, ev.rel
 	case "fetch.start":
-		f := &rfFetch{id: len(s.fetches), evs: ev.evs, rel: ev.rel, seq: -1, left: len(ev.evs)}
+		f := &rfFetch{id: len(s.fetches), gid: ev.gid, evs: ev.evs, rel: ev.rel, ctl: ev.ctl, seq: -1}
 		s.fetches = append(s.fetches, f)
-		for _, x := range ev.evs {
-			s.byItem[x] = f
-		}
-		s.reserved++
 		// the flusher that was past the mid hook has reserved, unlocked and spawned this goroutine
 		for _, th := range []*rfThread{&s.p, &s.t} {
 			if th.st == tPostMid || th.st == tCapWait {
@@ -286,12 +316,25 @@ func (s *rfSim) handle(ev rfEvent) {
 			}
 		}
 	case "rf.buffer.add":
-		if s.finning != nil {
-			s.finning.seq = ev.seq
+		if f := s.fetchOf(ev.gid); f != nil {
+			f.added, f.seq = true, ev.seq
+			n := len(f.evs)
+			if f.failed {
+				n = 0
+			}
+			s.addedLen[ev.seq] = n
+			for {
+				l, ok := s.addedLen[s.nextDrain]
+				if !ok {
+					break
+				}
+				s.drainLens = append(s.drainLens, l)
+				s.nextDrain++
+			}
 		}
 	case "rf.drained":
-		if s.finning != nil {
-			s.finning.drained = true
+		if f := s.fetchOf(ev.gid); f != nil {
+			f.drained = true
 		}
 	case "p.ret":
 		if s.p.st == tPostMid || s.p.st == tCapWait {
@@ -302,28 +345,64 @@ func (s *rfSim) handle(ev rfEvent) {
 	}
 }
 
-func (s *rfSim) gotOutput(x int) {
-	s.outs = append(s.outs, x)
-	if f := s.byItem[x]; f != nil {
-		f.left--
-		if f.left == 0 {
-			s.reserved-- // Drain received from the reserved channel for this batch
+// sent = number of values the fetch goroutines have put into Output so far
+func (s *rfSim) sent() int { return s.consumed + len(s.rf.Output) }
+
+// dequeued counts the batches the drain has taken out of the reorder buffer (each frees a reserved slot) and returns
+// what is still to be sent of the batch being emitted.
+func (s *rfSim) dequeued() (n int, pending int) {
+	sent, cum := s.sent(), 0
+	for _, l := range s.drainLens {
+		if cum > sent {
+			break
 		}
+		n++
+		pending = max(cum+l-sent, 0)
+		cum += l
 	}
+	return
 }
 
-// wait processes hook events and Output until pred holds or the duration elapses.
+func (s *rfSim) reserved() int {
+	n, _ := s.dequeued()
+	return len(s.fetches) - n
+}
+
+// bufStable: the fetch goroutines have done everything they can do without the consumer
+func (s *rfSim) bufStable() bool {
+	for _, f := range s.fetches {
+		if f.finished && !f.added {
+			return false
+		}
+	}
+	total := 0
+	for _, l := range s.drainLens {
+		total += l
+	}
+	if s.sent() < total {
+		return len(s.rf.Output) == cap(s.rf.Output) // a sender is (about to be) blocked on the full channel
+	}
+	for _, f := range s.fetches {
+		if f.finished && !f.drained {
+			return false
+		}
+	}
+	return true
+}
+
+// wait processes hook events and errors until pred holds or the duration elapses.
 func (s *rfSim) wait(pred func() bool, d time.Duration) bool {
 	deadline := time.NewTimer(d)
 	defer deadline.Stop()
+	poll := time.NewTicker(50 * time.Microsecond) // len(Output) changes without an event
+	defer poll.Stop()
 	for {
-		// take everything that is already available first
 		for more := true; more; {
 			select {
 			case ev := <-s.events:
 				s.handle(ev)
-			case x := <-s.rf.Output:
-				s.gotOutput(x)
+			case <-s.errCh:
+				s.errs++
 			default:
 				more = false
 			}
@@ -334,8 +413,9 @@ func (s *rfSim) wait(pred func() bool, d time.Duration) bool {
 		select {
 		case ev := <-s.events:
 			s.handle(ev)
-		case x := <-s.rf.Output:
-			s.gotOutput(x)
+		case <-s.errCh:
+			s.errs++
+		case <-poll.C:
 		case <-deadline.C:
 			return pred()
 		}
@@ -345,7 +425,7 @@ func (s *rfSim) wait(pred func() bool, d time.Duration) bool {
 // settle waits for everything the hook positions say must happen next; positions that are expected to stay
 // blocked are only watched for a short grace period (an unexpected arrival is then visible in the snapshot).
 func (s *rfSim) settle() {
-	for i := 0; i < 8; i++ {
+	for i := 0; i < 64; i++ {
 		var pred func() bool
 		switch {
 		case s.p.st == tRunning:
@@ -356,9 +436,11 @@ func (s *rfSim) settle() {
 			pred = func() bool { return s.p.st != tPostMid }
 		case s.t.st == tPostMid:
 			pred = func() bool { return s.t.st != tPostMid }
-		case s.p.st == tCapWait && s.reserved < s.capacity:
+		case !s.bufStable():
+			pred = s.bufStable
+		case s.p.st == tCapWait && s.reserved() < s.capacity:
 			pred = func() bool { return s.p.st != tCapWait }
-		case s.t.st == tCapWait && s.reserved < s.capacity:
+		case s.t.st == tCapWait && s.reserved() < s.capacity:
 			pred = func() bool { return s.t.st != tCapWait }
 		case s.p.st == tLockWait && !s.t.inCritical():
 			pred = func() bool { return s.p.st != tLockWait }
@@ -368,8 +450,9 @@ func (s *rfSim) settle() {
 		if pred == nil {
 			break
 		}
-		if !s.wait(pred, rfLong) {
+		if !s.wait(pred, rfLong()) {
 			s.hung = true
+			c20Hangs.Add(1)
 			return
 		}
 	}
@@ -415,7 +498,8 @@ func (s *rfSim) snapshot() string {
 	if len(run) > 0 {
 		r = strings.Join(run, ";")
 	}
-	return fmt.Sprintf("p=%s t=%s run=%s out=%s", s.thrStr(&s.p), s.thrStr(&s.t), r, showInts(s.outs))
+	_, pend := s.dequeued()
+	return fmt.Sprintf("p=%s t=%s run=%s out=%s q=%d pend=%d errs=%d", s.thrStr(&s.p), s.thrStr(&s.t), r, showInts(s.outs), len(s.rf.Output), pend, s.errs)
 }
 
 func (s *rfSim) startProducer(call func()) {
@@ -447,7 +531,7 @@ func (s *rfSim) release(th, other *rfThread) {
 			th.st = tRunning
 		case th.n == 0:
 			th.st = tIdle
-		case s.reserved >= s.capacity:
+		case s.reserved() >= s.capacity:
 			th.st = tCapWait
 		default:
 			th.st = tPostMid
@@ -505,7 +589,7 @@ func (s *rfSim) op(f []string) string {
 		s.release(th, other)
 		s.settle()
 		res = "ok"
-	case len(f) == 2 && f[0] == "fin":
+	case len(f) == 2 && (f[0] == "fin" || f[0] == "fail"):
 		var running []*rfFetch
 		for _, ft := range s.fetches {
 			if !ft.finished {
@@ -519,14 +603,29 @@ func (s *rfSim) op(f []string) string {
 		r, _ := strconv.Atoi(f[1])
 		ft := running[r%len(running)]
 		ft.finished = true
-		s.finning = ft
+		ft.failed = f[0] == "fail"
+		ft.ctl.fail = ft.failed
 		close(ft.rel)
-		if !s.wait(func() bool { return ft.drained }, rfLong) {
-			s.hung = true
-		}
-		s.finning = nil
 		s.settle()
 		res = "seq=" + strconv.FormatInt(ft.seq, 10)
+	case len(f) == 2 && f[0] == "take":
+		n, _ := strconv.Atoi(f[1])
+		for i := 0; i < n && !s.hung; i++ {
+			_, pend := s.dequeued()
+			if len(s.rf.Output) == 0 && pend == 0 {
+				break // nothing in the channel and no sender waiting
+			}
+			select {
+			case x := <-s.rf.Output:
+				s.outs = append(s.outs, x)
+				s.consumed++
+			case <-time.After(rfLong()):
+				s.hung = true
+				c20Hangs.Add(1)
+			}
+			s.settle()
+		}
+		res = "ok"
 	}
 	if s.hung {
 		return "timeout | " + s.snapshot()
@@ -546,7 +645,7 @@ func c20Reorder(c lib.Case, maxSize int, delay bool, bufSize int) []string {
 	if delay {
 		d = time.Hour
 	}
-	s := &rfSim{ctx: ctx, tm: tm, events: make(chan rfEvent, 256), byItem: map[int]*rfFetch{}}
+	s := &rfSim{ctx: ctx, tm: tm, events: make(chan rfEvent, 256), errCh: make(chan error, 64), addedLen: map[int64]int{}}
 	s.capacity = bufSize
 	if s.capacity == 0 {
 		s.capacity = 1
@@ -556,7 +655,7 @@ func c20Reorder(c lib.Case, maxSize int, delay bool, bufSize int) []string {
 	s.rf = batching.NewReorderFetcher(ctx, batching.NewReorderFetcherParams[int, int]{
 		Batcher:    batching.NewEventBatcher[int](ctx, batching.EventBatcherParams{MaxDelay: d, MaxSize: maxSize, Timer: tm}),
 		FetchBatch: s.fetch,
-		ErrChan:    make(chan error, 16),
+		ErrChan:    s.errCh,
 		BufferSize: bufSize,
 	})
 	defer func() {
@@ -583,6 +682,7 @@ func c20Reorder(c lib.Case, maxSize int, delay bool, bufSize int) []string {
 					close(ev.rel)
 				}
 			case <-s.rf.Output:
+			case <-s.errCh:
 			case <-time.After(2 * time.Millisecond):
 				break drain
 			case <-deadline:
@@ -661,15 +761,16 @@ func c20GenReorder(r *lib.Rng, tier string) lib.Case {
 	}
 	delay := r.Chance(5, 6)
 	c := lib.Case{Header: fmt.Sprintf("M C20 rf %d %d %d", maxSize, map[bool]int{true: 1, false: 0}[delay], buf), Tags: []string{"reorder"}}
-	n := r.Range(10, 45)
+	n := r.Range(10, 50)
 	if tier == "thorough" {
-		n = r.Range(10, 90)
+		n = r.Range(10, 100)
 	}
 	next := 1
-	// weights differ per case so that some schedules keep flushers parked for long and others drain eagerly
-	wAdd, wFire, wRel, wFin := r.Range(3, 8), r.Range(1, 4), r.Range(2, 8), r.Range(1, 6)
+	// weights differ per case: some schedules keep flushers parked for long, some have a slow consumer, some fail fetches
+	wAdd, wFire, wRel, wFin, wTake := r.Range(3, 8), r.Range(1, 4), r.Range(2, 8), r.Range(1, 6), r.Range(0, 6)
+	failPct := lib.Pick(r, []int{0, 0, 10, 30})
 	for i := 0; i < n; i++ {
-		k := r.Intn(wAdd + wFire + wRel + wFin + 1)
+		k := r.Intn(wAdd + wFire + wRel + wFin + wTake + 1)
 		switch {
 		case k < wAdd:
 			c.Ops = append(c.Ops, fmt.Sprintf("add %d", next))
@@ -683,19 +784,26 @@ func c20GenReorder(r *lib.Rng, tier string) lib.Case {
 		case k < wAdd+wFire+wRel:
 			c.Ops = append(c.Ops, "rel "+lib.Pick(r, []string{"p", "t"}))
 		case k < wAdd+wFire+wRel+wFin:
-			c.Ops = append(c.Ops, fmt.Sprintf("fin %d", r.Intn(4)))
+			if r.Intn(100) < failPct {
+				c.Ops = append(c.Ops, fmt.Sprintf("fail %d", r.Intn(4)))
+			} else {
+				c.Ops = append(c.Ops, fmt.Sprintf("fin %d", r.Intn(4)))
+			}
+		case k < wAdd+wFire+wRel+wFin+wTake:
+			c.Ops = append(c.Ops, fmt.Sprintf("take %d", r.Range(1, 4)))
 		default:
 			c.Ops = append(c.Ops, "flush")
 		}
 	}
-	// wind down: release everything, complete all fetches (reverse order), so that the whole input must come out
+	// wind down: release everything, complete all fetches (last first), read Output empty: the whole input must come out
 	for i := 0; i < 3; i++ {
-		c.Ops = append(c.Ops, "rel p", "rel t", "rel p", "rel t")
+		c.Ops = append(c.Ops, "rel p", "rel t", "take 9", "rel p", "rel t")
 	}
 	c.Ops = append(c.Ops, "flush", "rel p", "rel p")
-	for i := 0; i < 8; i++ {
-		c.Ops = append(c.Ops, "fin 7", "rel p", "rel t")
+	for i := 0; i < 10; i++ {
+		c.Ops = append(c.Ops, "fin 7", "take 9", "rel p", "rel t")
 	}
+	c.Ops = append(c.Ops, "take 99")
 	return c
 }
 
@@ -703,7 +811,7 @@ func propC20() *lib.Prop {
 	return &lib.Prop{
 		ID:   "C20",
 		Corr: "Model/Batcher.lean ↔ batching.EventBatcher (lockstep); Model/Reorder.lean transition system ↔ batching.ReorderFetcher+ReorderBuffer (trace validation through util/verifhook points rf.flush.enter, rf.flush.mid, rf.buffer.add, rf.drained and scripted fetch completions)",
-		Rule: "batcher cases: random Add/IsFull/Flush(token)/timer-expiry histories, sizes 0-5; reorder cases: random schedules of producer Add/Flush, timer expiry (also stale), releases of the two flushers at the hook points and fetch completions in arbitrary order, batch size 1-4, buffer 0-6; non-trivial = a flusher was parked inside the critical section while the other one wanted to flush, a Reserve blocked on a full buffer, fetches completed out of order, or (batcher) a stale token was presented",
+		Rule: "batcher cases: random Add/IsFull/Flush(token)/timer-expiry histories, sizes 0-5; reorder cases: random schedules of producer Add/Flush, timer expiry (also stale), releases of the two flushers at the hook points, fetch completions in arbitrary order (some failing) and consumer reads of Output (slow consumer: senders block on the full channel holding the buffer mutex), batch size 1-4, buffer 0-6; non-trivial = a flusher was parked inside the critical section while the other one wanted to flush, a Reserve blocked on a full buffer, a sender blocked on a full Output, a fetch failed, fetches completed out of order, or (batcher) a stale token was presented",
 		NumCases: func(tier string) int {
 			if tier == "thorough" {
 				return 6000
@@ -714,11 +822,18 @@ func propC20() *lib.Prop {
 			return []lib.Case{
 				// D17 regression: the timeout flusher is parked between batcher.Flush and Reserve while the producer
 				// fills and flushes the next batch. Before the repair the producer overtook it (output 2 3 1).
-				{Header: "M C20 rf 2 1 4", Tags: []string{"D17"}, Ops: []string{"add 1", "fire", "rel t", "add 2", "add 3", "rel p", "rel t", "rel p", "rel p", "fin 1", "fin 0"}},
+				{Header: "M C20 rf 2 1 4", Tags: []string{"D17"}, Ops: []string{"add 1", "fire", "rel t", "add 2", "add 3", "rel p", "rel t", "rel p", "rel p", "fin 1", "fin 0", "take 9"}},
 				// same with the roles swapped: producer parked mid-flush, timeout flusher takes the next batch
-				{Header: "M C20 rf 1 1 4", Tags: []string{"D17"}, Ops: []string{"add 1", "rel p", "fire", "rel t", "rel p", "add 2", "rel t", "rel t", "fin 1", "fin 0"}},
+				{Header: "M C20 rf 1 1 4", Tags: []string{"D17"}, Ops: []string{"add 1", "rel p", "fire", "rel t", "rel p", "add 2", "rel t", "rel t", "fin 1", "fin 0", "take 9"}},
 				// full buffer: Reserve blocks inside the critical section until a drain frees a slot
-				{Header: "M C20 rf 1 1 1", Tags: []string{"capacity"}, Ops: []string{"add 1", "rel p", "rel p", "add 2", "rel p", "rel p", "fire", "rel t", "fin 0", "rel t", "fin 0", "fin 0"}},
+				{Header: "M C20 rf 1 1 1", Tags: []string{"capacity"}, Ops: []string{"add 1", "rel p", "rel p", "add 2", "rel p", "rel p", "fire", "rel t", "fin 0", "rel t", "take 1", "fin 0", "take 1", "fin 0", "take 9"}},
+				// slow consumer: Output (capacity 1) fills while batch 0 is emitted; batch 1 completes meanwhile and must wait
+				// for the buffer mutex; the consumer must still see 1..6 (a drain that gives up the mutex early gives 1 2 4 5 6 3)
+				{Header: "M C20 rf 3 1 1", Tags: []string{"slow-consumer"}, Ops: []string{"add 1", "add 2", "add 3", "rel p", "rel p", "add 4", "add 5", "add 6", "rel p", "rel p", "fin 0", "fin 0", "take 1", "take 1", "take 2", "take 9"}},
+				{Header: "M C20 rf 2 1 0", Tags: []string{"slow-consumer"}, Ops: []string{"add 1", "add 2", "rel p", "rel p", "fin 0", "add 3", "add 4", "rel p", "rel p", "take 1", "fin 0", "take 1", "take 1", "take 9"}},
+				// a failed fetch still takes its place in the sequence: later batches flow, Reserve is not wedged
+				{Header: "M C20 rf 2 1 2", Tags: []string{"fetch-error"}, Ops: []string{"add 1", "add 2", "rel p", "rel p", "add 3", "add 4", "rel p", "rel p", "add 5", "add 6", "rel p", "rel p", "fail 0", "fin 0", "take 9", "fin 0", "take 9", "add 7", "add 8", "rel p", "rel p", "fin 0", "take 9"}},
+				{Header: "M C20 rf 1 1 1", Tags: []string{"fetch-error"}, Ops: []string{"add 1", "rel p", "rel p", "fail 0", "add 2", "rel p", "rel p", "fin 0", "take 9", "add 3", "rel p", "rel p", "fail 0", "add 4", "rel p", "rel p", "fin 0", "take 9"}},
 				{Header: "M C20 b 2 1", Tags: []string{"batcher"}, Ops: []string{"add 1", "fire", "add 2", "full", "flush cur", "stale", "flush 0", "add 3", "flush 0", "fire", "flush 1", "concat"}},
 			}
 		},
@@ -741,6 +856,12 @@ func propC20() *lib.Prop {
 			lastSeq := -1
 			for _, o := range implOut {
 				if strings.Contains(o, "p=L") || strings.Contains(o, "t=L") || strings.Contains(o, "p=C") || strings.Contains(o, "t=C") {
+					return true
+				}
+				if strings.Contains(o, " pend=") && !strings.Contains(o, " pend=0") {
+					return true // a sender blocked on the full Output channel, holding the buffer mutex
+				}
+				if strings.Contains(o, " errs=") && !strings.Contains(o, " errs=0") {
 					return true
 				}
 				if strings.HasPrefix(o, "seq=") {
